@@ -341,6 +341,9 @@ pub trait SchemaList {
 impl<S: Into<SchemaRef>> SchemaList for S {
     fn collect(self) -> Vec<SchemaRef> {vec![self.into()]}
 }
+impl<S: Into<SchemaRef>> SchemaList for Vec<S> {
+    fn collect(self) -> Vec<SchemaRef> {self.into_iter().map(Into::into).collect()}
+}
 macro_rules! tuple_schemalist {
     ($($S:ident),*) => {
         #[allow(non_snake_case)]
